@@ -91,6 +91,10 @@ def optimize_mps(mps: Mps, mpo: Union[Mpo, StackedMpo], omega: float = None) -> 
     logger.info(f"e_atol: {mps.optimize_config.e_atol}")
     logger.info(f"procedure: {mps.optimize_config.procedure}")
 
+    # a complex Hamiltonian needs a complex working state
+    for single_mpo in (mpo.mpos if isinstance(mpo, StackedMpo) else [mpo]):
+        single_mpo.promote_mt_type(mps)
+
     # ensure that mps is left or right-canonical
     # TODO: start from a mix-canonical MPS
     if mps.is_left_canonical:
